@@ -915,7 +915,7 @@ static cfg_t *cfg_new_section(cfg_t *cfg, cfg_opt_t *opt, const char *title)
  * radix prefix and, in base 16, a second "0x": is s nothing but digits? */
 static int cfg_digits_ok(const char *s, int radix)
 {
-	if (radix == 0) {
+	if (radix == 10) {
 		/* decimal: an optional sign, the rest is left to strtol() */
 		if (*s == '-' || *s == '+')
 			s++;
@@ -973,8 +973,12 @@ DLLIMPORT cfg_value_t *cfg_setopt(cfg_t *cfg, cfg_opt_t *opt, const char *value)
 				errno = EINVAL;
 				return NULL;
 			}
-			// Guess radix
-			radix = 0;
+			/*
+			 * Guess radix.  Without a prefix the token is decimal:
+			 * base 0 would let strtol() find a prefix behind a
+			 * sign, "-010" as -8 and "+0x1f" as 31.
+			 */
+			radix = 10;
 			int_str = value;
 			if (value[0] == '0') {
 				switch (value[1]) {
